@@ -568,20 +568,7 @@ fn c09_run_vs_debug(scn: &DebugScenario, report: &mut Report) {
     if plain.hang || debugged.hang {
         return;
     }
-    let cut = |out: &[u8]| -> Vec<u8> {
-        let marker = b"Running emitted binary\n";
-        match out.windows(marker.len()).position(|w| w == marker) {
-            Some(at) => {
-                let rest = &out[at + marker.len()..];
-                let done = b"   Completed target ";
-                match rest.windows(done.len()).rposition(|w| w == done) {
-                    Some(end) => rest[..end].to_vec(),
-                    None => rest.to_vec(),
-                }
-            }
-            None => out.to_vec(),
-        }
-    };
+    let cut = |out: &[u8]| -> Vec<u8> { crate::world_b::program_output(out).unwrap_or_else(|| out.to_vec()) };
     if plain.label() != debugged.label() {
         report.violations.push(Violation::new(
             "C09",
